@@ -13,7 +13,7 @@ for d in sorted(glob.glob(os.path.join(V, 'seeded', 'C*-*'))):
         continue
     m = json.load(open(os.path.join(d, 'meta.json')))
     need = re.sub(r'\s+', ' ', m.get('needs_to_manifest', '')).replace('|', '/')
-    need = need if len(need) < 260 else need[:257] + '...'
+    need = need if len(need) < 200 else need[:197] + '...'
     r = reg.get('seed:' + n, {})
     rules = sorted({x[0] for p, v in r.items() if isinstance(v, dict) and v.get('st') == 'alarm' for x in v.get('rules', [])})
     print('| %s | %s | %s |' % (n, need, ', '.join(rules) or '**not reported**'))
